@@ -384,6 +384,34 @@ Proof.
   - exfalso. eapply signing_context_never_panics; eauto.
 Qed.
 
+(* ================= the message is recoverable from the wire form ================= *)
+(* DEFLATE and base64 are opaque: any codec pair with the round-trip property *)
+Section Codec.
+  Variables (deflate inflate b64enc b64dec : string -> string).
+  Hypothesis inflate_deflate : forall x, inflate (deflate x) = x.
+  Hypothesis b64_roundtrip : forall x, b64dec (b64enc x) = x.
+
+  (* redirect binding: the single SAMLRequest parameter of the emitted URL
+     base64-decodes and inflates to the serialised message *)
+  Theorem redirect_message_recoverable sign dest xml relay method kt url octets :
+    authn_redirect sign dest (b64enc (deflate xml)) relay method kt = Ok (url, octets) ->
+    has_saml_key (fst (parse_query (snd (fst (split_url dest))))) = false ->
+    map (fun v => inflate (b64dec v)) (values_of "SAMLRequest" (fst (parse_query (query_of url)))) = [xml].
+  Proof.
+    intros H Hown. destruct (authn_redirect_url_params _ _ _ _ _ _ _ _ H Hown) as (A & _).
+    rewrite A. cbn. now rewrite b64_roundtrip, inflate_deflate.
+  Qed.
+
+  Theorem logout_message_recoverable param rawq xml relay :
+    param <> "RelayState" ->
+    map (fun v => inflate (b64dec v))
+        (values_of param (fst (parse_query (logout_query param rawq (b64enc (deflate xml)) relay)))) = [xml].
+  Proof.
+    intros Hp. destruct (logout_query_params param rawq (b64enc (deflate xml)) relay) as (_ & A & _).
+    rewrite (A Hp). cbn. now rewrite b64_roundtrip, inflate_deflate.
+  Qed.
+End Codec.
+
 (* ================= message IDs ================= *)
 Lemma hx_to_hex s : hx (to_hex s) = s.
 Proof.
